@@ -1,13 +1,14 @@
 package binder
 
 import (
-	"github.com/gofiber/utils/v2"
 	"github.com/valyala/fasthttp"
 )
 
 // CookieBinding is the cookie binder for cookie request body.
 type CookieBinding struct {
 	EnableSplitting bool
+	// Immutable makes the binder copy keys and values out of the request buffers (Config.Immutable)
+	Immutable bool
 }
 
 // Name returns the binding name.
@@ -25,8 +26,8 @@ func (b *CookieBinding) Bind(req *fasthttp.Request, out any) error {
 			return
 		}
 
-		k := utils.UnsafeString(key)
-		v := utils.UnsafeString(val)
+		k := toString(key, b.Immutable)
+		v := toString(val, b.Immutable)
 		err = formatBindData(out, data, k, v, b.EnableSplitting, false)
 	})
 
@@ -40,4 +41,5 @@ func (b *CookieBinding) Bind(req *fasthttp.Request, out any) error {
 // Reset resets the CookieBinding binder.
 func (b *CookieBinding) Reset() {
 	b.EnableSplitting = false
+	b.Immutable = false
 }
